@@ -878,6 +878,7 @@ func (sr *SqlRun) execute(ops []Op, gen *sqlGen) {
 		n = len(ops)
 	}
 	var preAbort map[int]map[string][]string
+	preAbortCommits := map[int]int{}
 	if cfg.AbortFocus {
 		preAbort = map[int]map[string][]string{}
 	}
@@ -957,10 +958,14 @@ func (sr *SqlRun) execute(ops []Op, gen *sqlGen) {
 			sr.quiescentChecks(i, "after create table", "")
 		default:
 			if cfg.AbortFocus && op.Kind == "begin" && e.open() == 0 {
+				delete(preAbort, op.T)
 				obs, msg := sr.observable(i)
 				if msg == "" {
 					preAbort[op.T] = obs
+					preAbortCommits[op.T] = e.Commits
 				}
+			} else if cfg.AbortFocus && op.Kind == "begin" {
+				delete(preAbort, op.T) // another transaction is open: no snapshot can be taken
 			}
 			wasOpen := e.Slots[op.T] != nil
 			nAb := e.Aborts
@@ -978,7 +983,8 @@ func (sr *SqlRun) execute(ops []Op, gen *sqlGen) {
 			}
 			// an abort happened (explicit or by a refused statement) and nothing else is open: C03 oracle
 			if cfg.AbortFocus && wasOpen && e.Aborts > nAb && e.open() == 0 {
-				if pre := preAbort[op.T]; pre != nil {
+				// the snapshot is comparable only if nothing was committed since it was taken
+				if pre := preAbort[op.T]; pre != nil && preAbortCommits[op.T] == e.Commits {
 					post, msg := sr.observable(i)
 					sr.stat("abort_snapshots_compared", 1)
 					if msg != "" {
@@ -1117,6 +1123,8 @@ func runSqlSim(run int, seed uint64) RunReport {
 	sr.stat("conflict_aborts", e.ConflictAborts)
 	sr.stat("statements", e.StmtCount)
 	sr.stat("restarts", sr.restarts)
+	sr.stat("pin_vectors_compared", e.PinChecks)
+	sr.stat("pin_count_growth_on_already_pinned_page", e.PinGrowth)
 	for k, n := range e.PlanShapes {
 		sr.stat("plan:"+k, n)
 	}
